@@ -32,12 +32,14 @@ type Engine struct {
 	ufuns      map[string]string // name -> declaration line
 	ufunOrder  []string
 	counter    int
+	qcounter   int
 	typeIDs    map[string]int
 	typeIDName []string
 	keySort    map[string]string
 	globalsRO  map[string]bool
 	trusted    map[string]bool // trusted-base notes collected during the run
 	allocated  map[string]bool
+	stableContent map[string]bool
 }
 
 func LoadEngine(repo string, patterns []string) (*Engine, error) {
@@ -207,6 +209,7 @@ func (e *Engine) newRun(stringMode bool) {
 	e.ufuns = map[string]string{}
 	e.ufunOrder = nil
 	e.counter = 0
+	e.qcounter = 0
 	e.typeIDs = map[string]int{}
 	e.typeIDName = nil
 	e.keySort = map[string]string{}
@@ -387,15 +390,33 @@ func (e *Engine) mapLen(p *Path, snap *Snap, mt types.Type, m string) string {
 }
 
 func (e *Engine) mapLoad(p *Path, snap *Snap, mt types.Type, m, k string) (Val, string) {
+	return e.mapLoadX(p, snap, mt, m, k, false)
+}
+
+// mapLoadX: raw=true returns the stored value without the zero default for absent keys
+// (used where the key is known to be present, and in specifications for reference-valued maps).
+func (e *Engine) mapLoadX(p *Path, snap *Snap, mt types.Type, m, k string, raw bool) (Val, string) {
 	mm := mt.Underlying().(*types.Map)
 	ks := e.sortOf(mm.Key())
 	dom := sel(e.mapDom(p, snap, mt, m), k)
 	var ts []string
 	for _, l := range e.leaves(mm.Elem()) {
 		a := e.heapName(p, snap, "M:"+mapKeyBase(mt)+l.Path, arrSort("Int", arrSort(ks, l.Sort)))
-		ts = append(ts, ite(dom, sel(sel(a, m), k), zeroOfSort(l.Sort)))
+		if raw {
+			ts = append(ts, sel(sel(a, m), k))
+		} else {
+			ts = append(ts, ite(dom, sel(sel(a, m), k), zeroOfSort(l.Sort)))
+		}
 	}
 	return e.unflatten(mm.Elem(), &ts), dom
+}
+
+func refValued(t types.Type) bool {
+	switch t.Underlying().(type) {
+	case *types.Pointer, *types.Map, *types.Slice, *types.Interface, *types.Signature:
+		return true
+	}
+	return false
 }
 
 func (e *Engine) mapStore(p *Path, mt types.Type, m, k string, v Val) {
@@ -461,7 +482,56 @@ func (e *Engine) havocAll(p *Path) {
 	}
 }
 
+// stableContentKeys: contents of map/slice-typed fields declared `stable` are kept across arbitrary calls too.
+func (e *Engine) stableContentKeys() map[string]bool {
+	if e.stableContent != nil {
+		return e.stableContent
+	}
+	out := map[string]bool{}
+	for tk, tc := range e.cs.Types {
+		i := strings.LastIndex(tk, ".")
+		if i < 0 {
+			continue
+		}
+		p := e.pkgs[tk[:i]]
+		if p == nil {
+			continue
+		}
+		o := p.Pkg.Scope().Lookup(tk[i+1:])
+		if o == nil {
+			continue
+		}
+		st, ok := o.Type().Underlying().(*types.Struct)
+		if !ok {
+			continue
+		}
+		for j := 0; j < st.NumFields(); j++ {
+			f := st.Field(j)
+			if !tc.Stable[f.Name()] {
+				continue
+			}
+			switch u := f.Type().Underlying().(type) {
+			case *types.Map:
+				for _, lf := range e.leaves(u.Elem()) {
+					out["M:"+mapKeyBase(f.Type())+lf.Path] = true
+				}
+				out["MD:"+mapKeyBase(f.Type())] = true
+				out["ML:"+mapKeyBase(f.Type())] = true
+			case *types.Slice:
+				for _, lf := range e.leaves(u.Elem()) {
+					out[elemKey(u.Elem(), lf.Path)] = true
+				}
+			}
+		}
+	}
+	e.stableContent = out
+	return out
+}
+
 func (e *Engine) keepOnHavoc(key string) bool {
+	if e.stableContentKeys()[key] {
+		return true
+	}
 	switch {
 	case strings.HasPrefix(key, "F:"):
 		rest := key[2:]
